@@ -27,7 +27,7 @@ using namespace opensmt;
 #ifndef B_POLLS
 #define B_POLLS 3         // the stop request arrives at the latest at poll number B_POLLS (bounds the main loop)
 #endif
-enum { STRIDE = B_ML + 2, TMPUNIT = B_NC, QCAP = 8 };   // slot B_NC = bwdsub_tmpunit (a unit clause)
+enum { STRIDE = B_ML + 2, TMPUNIT = B_NC, QCAP = 6 };   // slot B_NC = bwdsub_tmpunit (a unit clause)
 
 extern "C" { extern opensmt::SimpSMTSolver sb_solver_obj; extern opensmt::SMTConfig sb_config_obj; }
 static_assert(sizeof(SimpSMTSolver) <= 8192 && sizeof(SMTConfig) <= 4096, "native replay storage in stop_subsumption_rt.c too small");
@@ -83,19 +83,37 @@ extern "C" void stub_updateElimHeap(SimpSMTSolver *, Var) {}
 extern "C" int stub_verbosity(SMTConfig const *) { return 0; }
 extern "C" void stub_vec_capacity(vec<int> * v, int min_cap) { VASSERT(v->cap >= min_cap, "harness preallocated enough vec capacity (no realloc in the kernel)"); }
 
+extern "C" vec<CRef> * stub_occList(void * self, unsigned long v);
 static void * fake_vt[64];
 template<class T> static void prealloc(vec<T> & v, T * buf, int cap, int size) { v.data = buf; v.cap = cap; v.sz = size; }
 static Lit buf_trail[B_NT + B_NC];
 static lbool buf_assigns[B_NV];
 static VarData buf_vardata[B_NV];
 static int buf_lim[1];
-static vec<CRef> occ_lists[B_NV];
+// occurrence lists: one vec<CRef> OBJECT per variable (not an array of vecs: the back end's points-to sets do not distinguish array
+// elements, and the null data pointer written by the vec constructor would make every list access a possible wild access);
+// std::vector<vec<CRef>>::operator[] (the only way OccLists reaches its lists) is replaced by the case split below
+#define B_LISTS(X) X(0) X(1) X(2) X(3) X(4)
+#define B_DECL(n) static vec<CRef> ol##n;
+B_LISTS(B_DECL)
+static_assert(B_NV <= 5, "at most 5 occurrence lists");
 static CRef occ_buf[B_NV][B_NC];
 static char buf_dirty[B_NV];
 static Var buf_dirties[2 * B_NV];
 static int buf_nocc[2 * B_NV];
 static CRef buf_queue[QCAP];
 
+extern "C" vec<CRef> * stub_occList(void * self, unsigned long v) {
+    VASSERT(v < B_NV, "occurrence list index is a variable of the solver");
+    VASSERT(self == (void *)&S->occurs.occs, "the occurrence lists of the solver under test");
+#define B_CASE(n) if (B_NV > n && v == n) return &ol##n;
+    B_LISTS(B_CASE)
+    return &ol0;
+}
+static void reset_lists() {   // static buffers: nothing for the vec destructors to free at exit (native replay)
+#define B_RESET(n) ol##n.data = nullptr; ol##n.sz = 0; ol##n.cap = 0;
+    B_LISTS(B_RESET)
+}
 static bool contains_var(int k, int v) { bool f = false; for (int j = 0; j < B_ML; j++) if (j < g_csz[k] && lvar(g_clit[k][j]) == v) f = true; return f; }
 static uint8_t val_lit(int l) { uint8_t v = g_val[lvar(l)]; return v == 2 ? 2 : (uint8_t)(v ^ (l & 1)); }
 
@@ -148,6 +166,7 @@ static void build() {
     // occurrence lists: a live clause sits in the list of each of its variables; a removed clause may still sit in any list whose
     // variable is smudged (dirty) - lazy deletion, and strengthenClause shortens a removed binary clause after smudging
     int nd = 0;
+    static int occ_n[B_NV];
     for (int v = 0; v < B_NV; v++) {
         buf_dirty[v] = nondet_bool();
         if (buf_dirty[v]) buf_dirties[nd++] = v;
@@ -156,10 +175,10 @@ static void build() {
             bool in = g_mark[k] ? (buf_dirty[v] && nondet_bool()) : contains_var(k, v);
             if (in) occ_buf[v][n++] = cref_of(k);
         }
-        prealloc(occ_lists[v], occ_buf[v], B_NC, n);
+        occ_n[v] = n;
     }
-    void ** occs = reinterpret_cast<void **>(&S->occurs.occs);      // std::vector<vec<CRef>>: begin, end, end of storage
-    occs[0] = (void *)&occ_lists[0]; occs[1] = occs[2] = (void *)(&occ_lists[0] + B_NV);
+#define B_PRE(n) if (B_NV > n) prealloc(ol##n, occ_buf[n < B_NV ? n : 0], B_NC, occ_n[n < B_NV ? n : 0]);
+    B_LISTS(B_PRE)
     prealloc(S->occurs.dirty, buf_dirty, B_NV, B_NV);
     prealloc(S->occurs.dirties, buf_dirties, 2 * B_NV, nd);
     *reinterpret_cast<void const **>(&S->occurs.deleted) = (void const *)&S->ca;     // ClauseDeleted holds a reference to the allocator
@@ -218,5 +237,5 @@ extern "C" void h_bwdsub() {
         }
     }
     VWITNESS("bwdsub-returns");
-    for (int v = 0; v < B_NV; v++) { occ_lists[v].data = nullptr; occ_lists[v].sz = 0; occ_lists[v].cap = 0; }   // static buffers: nothing for the destructors to free
+    reset_lists();
 }
